@@ -43,6 +43,16 @@ def big_fracs(signed=True):
     return st.builds(mk, big_ints(), big_ints(), st.sampled_from([1, 1, -1] if signed else [1]))
 
 
+def shape_for_op(case):
+    """Construction instead of rejection: default integration is defined for scalar polynomial curves only."""
+    if case["op"] == "integrate":
+        A = dict(case["A"])
+        A["P"] = [pt[0] if isinstance(pt, (list, tuple)) else pt for pt in A["P"]]
+        A["w"] = None
+        case = dict(case, A=A)
+    return case
+
+
 @st.composite
 def big_structure(draw):
     """Curve case with big rational numbers; second curve on the same interval."""
@@ -78,10 +88,10 @@ def big_structure(draw):
         V = [a] * (q + 1) + [a + length * ts[0]] * draw(st.integers(1, q + 1)) + [b] * (q + 1)
     m = len(V) - q - 1
     Q = draw(gen.ctrlpoints(m, dim if draw(st.booleans()) else 0, big_fracs(False)))
-    return {"A": {"U": U, "p": p, "P": P, "w": w, "num": "fracint" if intpoints else "frac"},
+    return shape_for_op({"A": {"U": U, "p": p, "P": P, "w": w, "num": "fracint" if intpoints else "frac"},
             "B": {"U": V, "p": q, "P": Q, "w": None, "num": "frac"},
             "op": draw(st.sampled_from(OPS + ["smul", "smul", "lossy"])), "t": draw(st.sampled_from([F(1, 3), F(2, 5), F(1, 2)])),
-            "profile": "big", "order": draw(st.sampled_from(lib.SEQ_ORDERS))}
+            "profile": "big", "order": draw(st.sampled_from(lib.SEQ_ORDERS))})
 
 
 @st.composite
@@ -109,10 +119,10 @@ def small_structure(draw):
     m = len(V) - q - 1
     Q = draw(gen.ctrlpoints(m, dim if draw(st.booleans()) else 0,
                             st.builds(lambda x, d: F(x, d), st.integers(1, 12), st.sampled_from([1, 2, 3]))))
-    return {"A": {"U": U, "p": p, "P": P, "w": w, "num": anum},
+    return shape_for_op({"A": {"U": U, "p": p, "P": P, "w": w, "num": anum},
             "B": {"U": V, "p": q, "P": Q, "w": None, "num": "frac"},
             "op": draw(st.sampled_from(OPS + ["smul", "smul", "lossy"])), "t": draw(st.sampled_from([F(1, 3), F(2, 5), F(1, 2)])),
-            "profile": "small", "float_first": draw(st.booleans()), "order": draw(st.sampled_from(lib.SEQ_ORDERS))}
+            "profile": "small", "float_first": draw(st.booleans()), "order": draw(st.sampled_from(lib.SEQ_ORDERS))})
 
 
 # ----------------------------------------------------------------- operation runner
@@ -587,9 +597,9 @@ def check_pt(case, out):
 
 
 FACETS = [
-    Facet("exact-big", lambda tier: big_structure(), check_exact, quick=700, thorough=5000,
+    Facet("exact-big", lambda tier: big_structure(), check_exact, quick=1500, thorough=8000,
           rule="large rationals: exact result and no float", case_timeout=120),
-    Facet("exact-small", lambda tier: small_structure(), check_exact, quick=500, thorough=3000,
+    Facet("exact-small", lambda tier: small_structure(), check_exact, quick=1500, thorough=6000,
           rule="small rationals: exact result and no float"),
     Facet("differential", lambda tier: small_structure(), check_differential, quick=600, thorough=5000,
           rule="float / numpy.float64 agree with the exact result to 1e-9*scale"),
